@@ -145,6 +145,48 @@ SchemaMatches(obs, kids) ==
   /\ obs[1].type = -1 /\ obs[1].nch = Len(kids) /\ obs[1].rep \in {-1, 0}
   /\ \A i \in 1..Len(want) : ElemMatches(obs[i + 1], want[i])
 
+\* C15: the struct `parquetgen -parquet` must regenerate from the footer of a file
+\* written for kids (no repeated nodes): same nesting, names (kept as tags),
+\* optionality; the physical type decides the Go type, so unsigned becomes signed
+RegenType(t) == CASE t = "uint32" -> "int32" [] t = "uint64" -> "int64" [] OTHER -> t
+RECURSIVE Regen(_)
+Regen(kids) == [i \in 1..Len(kids) |->
+                  [rep |-> kids[i].rep, typ |-> RegenType(kids[i].typ), name |-> kids[i].name, kids |-> Regen(kids[i].kids)]]
+
+\* C14: decorated schemas.  A decorated node may carry excl = TRUE (a field that
+\* is unexported or tagged parquet:"-") or emb = TRUE (an embedded struct).
+\* Erase gives the schema the file must have: excluded fields vanish, embedded
+\* structs are replaced by their (erased) fields.
+IsExcl(n) == "excl" \in DOMAIN n /\ n.excl
+IsEmb(n) == "emb" \in DOMAIN n /\ n.emb
+RECURSIVE Erase(_)
+Erase(kids) ==
+  Concat([i \in 1..Len(kids) |->
+     IF IsExcl(kids[i]) THEN <<>>
+     ELSE IF IsEmb(kids[i]) THEN Erase(kids[i].kids)
+     ELSE << [rep |-> kids[i].rep, kids |-> Erase(kids[i].kids)] >>])
+\* insert an excluded field at position pos (0..Len) of the struct at path
+RECURSIVE InsertExcl(_, _, _)
+InsertExcl(kids, path, pos) ==
+  IF path = <<>> THEN SubSeq(kids, 1, pos) \o << [rep |-> "req", kids |-> <<>>, excl |-> TRUE] >> \o SubSeq(kids, pos + 1, Len(kids))
+  ELSE [kids EXCEPT ![path[1]] = [rep |-> @.rep, kids |-> InsertExcl(@.kids, Tail(path), pos)]]
+\* replace fields start..start+len-1 of the struct at path by an embedded struct holding them
+RECURSIVE EmbedRun(_, _, _, _)
+EmbedRun(kids, path, start, len) ==
+  IF path = <<>> THEN SubSeq(kids, 1, start - 1) \o << [rep |-> "req", kids |-> SubSeq(kids, start, start + len - 1), emb |-> TRUE] >>
+                      \o SubSeq(kids, start + len, Len(kids))
+  ELSE [kids EXCEPT ![path[1]] = [rep |-> @.rep, kids |-> EmbedRun(@.kids, Tail(path), start, len)]]
+\* all group paths (<<>> = the root struct)
+RECURSIVE GroupPaths(_)
+GroupPaths(kids) ==
+  {<<>>} \cup UNION {{<<i>> \o p : p \in GroupPaths(kids[i].kids)} : i \in {j \in 1..Len(kids) : ~IsLeaf(kids[j])}}
+RECURSIVE KidsAt(_, _)
+KidsAt(kids, path) == IF path = <<>> THEN kids ELSE KidsAt(kids[path[1]].kids, Tail(path))
+ExclSites(kids) == {<<p, pos>> : p \in GroupPaths(kids), pos \in 0..3} \cap
+                   UNION {{<<p, pos>> : pos \in 0..Len(KidsAt(kids, p))} : p \in GroupPaths(kids)}
+EmbedSites(kids) == UNION {{<<p, s, n>> : s \in 1..Len(KidsAt(kids, p)), n \in 1..Len(KidsAt(kids, p))} : p \in GroupPaths(kids)}
+Plain(kids) == Erase(kids)
+
 \* dotted column names, in column order
 RECURSIVE PathNames(_, _)
 PathNames(kids, path) ==
